@@ -26,16 +26,16 @@ def table : List Entry := [
   ⟨"tan", 1, 0, (.app1 "tan" (.var 0)), (.pow ((.app1 "cos" (.var 0))) (.const (-2) 1))⟩,
   ⟨"tanh", 1, 0, (.app1 "tanh" (.var 0)), (.add ((.mul ((.pow ((.app1 "tanh" (.var 0))) (.const (2) 1))) (.const (-1) 1))) (.const (1) 1))⟩,
   ⟨"reciprocal", 1, 0, (.pow (.var 0) (.const (-1) 1)), (.add ((.mul ((.mul ((.app1 "log" (.var 0))) ((.pow (.var 0) (.const (-1) 1))))) (.const (0) 1))) ((.mul ((.mul ((.pow (.var 0) ((.add ((.mul (.const (-1) 1) (.const (1) 1))) (.const (-1) 1))))) (.const (-1) 1))) (.const (1) 1))))⟩,
-  ⟨"negative", 1, 0, (.mul (.const (-1) 1) (.var 0)), (.add ((.mul (.const (-1) 1) (.const (0) 1))) ((.mul (.const (0) 1) (.var 0))))⟩,
+  ⟨"negative", 1, 0, (.mul (.const (-1) 1) (.var 0)), (.add ((.mul (.const (-1) 1) (.const (1) 1))) ((.mul (.const (0) 1) (.var 0))))⟩,
   ⟨"sqrt", 1, 0, (.pow (.var 0) (.const (1) 2)), (.mul ((.mul ((.pow (.var 0) (.const (-1) 2))) (.const (1) 2))) (.const (1) 1))⟩,
-  ⟨"abs", 1, 0, (.mul ((.app1 "sign" (.var 0))) (.var 0)), (.add ((.mul ((.app1 "sign" (.var 0))) (.const (0) 1))) ((.mul (.const (0) 1) (.var 0))))⟩,
+  ⟨"abs", 1, 0, (.mul ((.app1 "sign" (.var 0))) (.var 0)), (.add ((.mul ((.app1 "sign" (.var 0))) (.const (1) 1))) ((.mul (.const (0) 1) (.var 0))))⟩,
   ⟨"power:3", 1, 0, (.pow (.var 0) (.const (3) 1)), (.mul ((.mul ((.pow (.var 0) (.const (2) 1))) (.const (3) 1))) (.const (1) 1))⟩,
   ⟨"power:5/2", 1, 0, (.pow (.var 0) (.const (5) 2)), (.mul ((.mul ((.pow (.var 0) (.const (3) 2))) (.const (5) 2))) (.const (1) 1))⟩,
   ⟨"power:-2", 1, 0, (.pow (.var 0) (.const (-2) 1)), (.mul ((.mul ((.pow (.var 0) (.const (-3) 1))) (.const (-2) 1))) (.const (1) 1))⟩,
-  ⟨"divide", 2, 0, (.mul ((.pow (.var 1) (.const (-1) 1))) (.var 0)), (.add ((.mul ((.pow (.var 1) (.const (-1) 1))) (.const (0) 1))) ((.mul (.const (0) 1) (.var 0))))⟩,
-  ⟨"divide", 2, 1, (.mul ((.pow (.var 1) (.const (-1) 1))) (.var 0)), (.add ((.mul ((.add ((.mul ((.mul ((.app1 "log" (.var 1))) ((.pow (.var 1) (.const (-1) 1))))) (.const (0) 1))) ((.mul ((.mul ((.pow (.var 1) ((.add ((.mul (.const (-1) 1) (.const (1) 1))) (.const (-1) 1))))) (.const (-1) 1))) (.const (1) 1))))) ((.pow (.var 1) (.const (-1) 1))))) ((.mul ((.add ((.mul ((.mul ((.app1 "log" (.var 1))) ((.pow (.var 1) (.const (-1) 1))))) (.const (0) 1))) ((.mul ((.mul ((.pow (.var 1) ((.add ((.mul (.const (-1) 1) (.const (1) 1))) (.const (-1) 1))))) (.const (-1) 1))) (.const (1) 1))))) (.var 0))))⟩,
+  ⟨"divide", 2, 0, (.mul ((.pow (.var 1) (.const (-1) 1))) (.var 0)), (.add ((.mul ((.pow (.var 1) (.const (-1) 1))) (.const (1) 1))) ((.mul (.const (0) 1) (.var 0))))⟩,
+  ⟨"divide", 2, 1, (.mul ((.pow (.var 1) (.const (-1) 1))) (.var 0)), (.add ((.mul ((.add ((.mul ((.mul ((.app1 "log" (.var 1))) ((.pow (.var 1) (.const (-1) 1))))) (.const (0) 1))) ((.mul ((.mul ((.pow (.var 1) ((.add ((.mul (.const (-1) 1) (.const (1) 1))) (.const (-1) 1))))) (.const (-1) 1))) (.const (1) 1))))) (.var 0))) ((.mul ((.pow (.var 1) (.const (-1) 1))) (.const (0) 1))))⟩,
   ⟨"subtract", 2, 0, (.add ((.mul (.const (-1) 1) (.var 1))) (.var 0)), (.add (.const (0) 1) (.const (1) 1))⟩,
-  ⟨"subtract", 2, 1, (.add ((.mul (.const (-1) 1) (.var 1))) (.var 0)), (.add ((.add ((.mul (.const (-1) 1) (.const (0) 1))) ((.mul (.const (0) 1) (.var 1))))) (.const (0) 1))⟩,
+  ⟨"subtract", 2, 1, (.add ((.mul (.const (-1) 1) (.var 1))) (.var 0)), (.add ((.add ((.mul (.const (-1) 1) (.const (1) 1))) ((.mul (.const (0) 1) (.var 1))))) (.const (0) 1))⟩,
   ⟨"powvar", 2, 0, (.pow (.var 0) (.var 1)), (.add ((.mul ((.mul ((.app1 "log" (.var 0))) ((.pow (.var 0) (.var 1))))) (.const (0) 1))) ((.mul ((.mul ((.pow (.var 0) ((.add ((.mul (.const (-1) 1) (.const (1) 1))) (.var 1))))) (.var 1))) (.const (1) 1))))⟩,
   ⟨"powvar", 2, 1, (.pow (.var 0) (.var 1)), (.add ((.mul ((.mul ((.app1 "log" (.var 0))) ((.pow (.var 0) (.var 1))))) (.const (1) 1))) ((.mul ((.mul ((.pow (.var 0) ((.add ((.mul (.const (-1) 1) (.const (1) 1))) (.var 1))))) (.var 1))) (.const (0) 1))))⟩
 ]
